@@ -105,6 +105,8 @@ type VC struct {
 	obls     []*Obligation
 	nfresh   int
 	heapSort map[string]string // heap name -> element sort (heap is Array Int elem) or full sort for ghosts
+	heapElem map[string]types.Type
+	heapRows map[string]bool
 	ghost    map[string]bool
 	counters map[string]int
 	assumes  map[string]bool // assumptions used (for the evidence)
@@ -124,6 +126,9 @@ type VC struct {
 	preludeUsed map[string]bool
 	stack    []*ssa.Function
 	strict   bool
+	preHeaps []string
+	name     string
+	paramOrder []string
 }
 
 type panicSite struct {
@@ -201,6 +206,9 @@ func (vc *VC) count(kind string) int {
 }
 
 func (vc *VC) fnName() string {
+	if vc.name != "" {
+		return vc.name
+	}
 	return funcKey(vc.fn)
 }
 
@@ -526,35 +534,71 @@ func (vc *VC) typeFacts(x T, t types.Type, alloc T, depth int) T {
 
 // ---------------------------------------------------------------- heaps
 
+// heapTag names the heap a value of type t lives in: its sort, except that pointer-like
+// values (sort Int) get their own heaps so that well-formedness facts can be stated per heap.
+func (vc *VC) heapTag(t types.Type) string {
+	s := vc.sortOf(t)
+	if s == "Int" {
+		switch t.Underlying().(type) {
+		case *types.Pointer, *types.Map, *types.Chan, *types.Signature:
+			return "Ptr"
+		}
+	}
+	return sanitize(s)
+}
+
 func (vc *VC) cellHeap(elem types.Type) string {
 	key := typeKey(elem)
 	if key == "math/big.Int" {
-		vc.ensureHeap("BIG", "Int")
+		vc.ensureHeap("BIG", "Int", nil, false)
 		return "BIG"
 	}
 	if a, ok := elem.Underlying().(*types.Array); ok {
 		return vc.arrHeap(a.Elem())
 	}
-	s := vc.sortOf(elem)
-	name := "Hc_" + sanitize(s)
-	vc.ensureHeap(name, s)
+	name := "Hc_" + vc.heapTag(elem)
+	vc.ensureHeap(name, vc.sortOf(elem), elem, false)
 	return name
 }
 
 func (vc *VC) arrHeap(elem types.Type) string {
-	s := vc.sortOf(elem)
-	name := "Ha_" + sanitize(s)
-	vc.ensureHeap(name, "(Array Int "+s+")")
+	name := "Ha_" + vc.heapTag(elem)
+	vc.ensureHeap(name, "(Array Int "+vc.sortOf(elem)+")", elem, true)
 	return name
 }
 
-// ensureHeap registers heap `name` (sort Array Int elem); its entry value is name@0.
-func (vc *VC) ensureHeap(name, elemSort string) {
+// ensureHeap registers heap `name` (sort Array Int elemSort); its entry value is name@0.
+func (vc *VC) ensureHeap(name, elemSort string, elem types.Type, rows bool) {
 	if _, ok := vc.heapSort[name]; ok {
 		return
 	}
 	vc.heapSort[name] = "(Array Int " + elemSort + ")"
+	vc.heapElem[name] = elem
+	vc.heapRows[name] = rows
 	vc.decl(name+"@0", vc.heapSort[name])
+	vc.heapWF(name+"@0", name, "alloc@0")
+}
+
+// heapWF states that every cell of the heap constant c holds a well-typed value whose
+// pointers lie below the allocation frontier `front`.
+func (vc *VC) heapWF(c, heap, front string) {
+	elem := vc.heapElem[heap]
+	if elem == nil {
+		return
+	}
+	if vc.heapRows[heap] {
+		x := "(select (select " + c + " wf_p) wf_i)"
+		f := vc.typeFacts(x, elem, front, 0)
+		if f != tTrue {
+			vc.assume("(forall ((wf_p Int) (wf_i Int)) (! " + f + " :pattern (" + x + ")))")
+		}
+		return
+	}
+	x := "(select " + c + " wf_p)"
+	f := vc.typeFacts(x, elem, front, 0)
+	if f != tTrue {
+		vc.assume("(forall ((wf_p Int)) (! " + f + " :pattern (" + x + ")))")
+	}
 }
 
 func (vc *VC) ensureGhost(name, sort string) {
